@@ -1,13 +1,30 @@
 from vlib import Job
 
 META = dict(
-    bounds='asymmetric run-queue lock: 1 foreground (1-2 lock/unlock rounds) + 1-2 background try-lockers, every interleaving of the atomic steps, sequential consistency',
-    outside='thread_create / die / join / migrate / work-stealing steps on the real run queue (Layer-A one-step checks: not built in this session), ThreadPoolBase, stack allocators, '
-            'the context-switch assembly; memory models weaker than SC (see DESIGN: under the x86-TSO model of CBMC the same harness reports a violation, which could not be reproduced natively)',
-    assumptions=['await-as-assume for spin iterations'],
+    bounds='(a) asymmetric run-queue lock: 1 foreground (1-2 lock/unlock rounds) + 1-2 background try-lockers, every interleaving of the atomic steps, sequential consistency. '
+           '(b) work stealing, one step: ONE real try_work_stealing() (ws_scan_standbyq / ws_scan_runq / ws_scan_q) of vCPU V\'s idler against every valid state of a victim vCPU U with '
+           '3 (thorough 4) threads besides its idle worker, each symbolic in {READY in the run list, RUNNING (at most one), STANDBY in the standbyq}, symbolic list order, thread flags '
+           '(joinable / enable / pause stealing), heap index (a STANDBY thread may still be in the sleep heap), busy thread lock, vCPU stealing flags and nthreads counters. '
+           '(c) migration, one step: ONE real thread_migrate() (another READY / SLEEPING / foreign thread, or the caller itself through defer_migrate_current + do_defer_migrate; same or other target vCPU; '
+           'target standbyq empty or not) followed by one real resume_threads() round of the target vCPU.',
+    outside='thread_create (placement-new of the thread object inside its own stack buffer: struct-in-char-buffer, not encodable at acceptable cost), thread::die / thread_join hand-shake and stack release '
+            '(needs the noreturn die switch), ThreadPoolBase, stack allocators, the context-switch assembly; true concurrency of the stealer with the victim vCPU (the step is executed atomically: '
+            'what the run-queue / standbyq / thread locks are supposed to guarantee - the lock itself is (a)); more than two vCPUs; memory models weaker than SC (see DESIGN: under the x86-TSO model of '
+            'CBMC harness (a) reports a violation, which could not be reproduced natively)',
+    assumptions=['await-as-assume for spin iterations (a); (b),(c): single OS thread, every lock is free when taken unless the scenario marks it busy; a busy lock makes try_lock fail',
+                 'switch_context_defer(from,to,defer,arg) (inline asm) is replaced by harness code that runs the deferred function on behalf of "to" and returns to the harness (the migrated caller '
+                 'continues only when the target vCPU schedules it)',
+                 'thread / vcpu_t objects are zero-initialised static storage + the constructor\'s field values; the vCPU ring has two members; engines are recording stand-ins'],
 )
 SRC = 'C05/h_asym.cpp'
 SH = ['libc.c', 'threads.c']
+SWITCH = '_ZN6photon14switch_contextEPNS_6threadES1_'
+SWITCHD = '_ZN6photon20switch_context_deferEPNS_6threadES1_PFvPvES2_'
+UPD = '_ZN6photonL10update_nowEv'
+LIFE_CLANG = ['-fno-access-control'] + sum([['-mllvm', '-force-attribute=%s:noinline' % f] for f in (SWITCH, SWITCHD, UPD)], [])
+LIFE_IR2C = ['--nop', '^@_ZN6photon15NullEventEngine', '--asm', 'rdtsc=verif_rdtsc', '--map', '^@%s$=verif_update_now' % UPD, '--map', '^@%s$=verif_switch' % SWITCH,
+             '--map', '^@%s$=verif_switch_defer' % SWITCHD]
+
 
 def jobs(tier):
     q = tier == 'quick'
@@ -16,4 +33,13 @@ def jobs(tier):
         J.append(Job('asym_1fg%dbg_%dr_sc' % (nbg, rounds), SRC, 'harness_asym', defines=['NBG=%d' % nbg, 'ROUNDS=%d' % rounds], unwind=4, shims=SH, cbmc=['--mm', 'sc'],
                      nochecks=True, unwinding_assertions=False, timeout=600, desc='asymmetric_spinLock: 1 foreground x %d rounds, %d background, SC' % (rounds, nbg),
                      bounds='1 fg x %d rounds, %d bg, SC, retry loops unwound 4' % (rounds, nbg)))
+    nv = 3 if q else 4
+    J.append(Job('steal_step_n%d' % nv, 'C05/h_life.cpp', 'harness_steal', defines=['H_STEAL', 'NV=%d' % nv], unwind=nv + 4, shims=['c04_heap.c'], clang=LIFE_CLANG, ir2c=LIFE_IR2C,
+                 timeout=900 if q else 3600, mem_gb=6 if q else 16,
+                 desc='one try_work_stealing() round: no thread lost / duplicated / stolen while RUNNING, busy or unstealable; th->vcpu and nthreads follow the thread; locks released',
+                 bounds='victim vCPU with %d threads + idle worker, thief with its idler only' % nv))
+    J.append(Job('migrate_step', 'C05/h_life.cpp', 'harness_migrate', defines=['H_MIGRATE', 'NV=3'], unwind=7, shims=['c04_heap.c'], clang=LIFE_CLANG, ir2c=LIFE_IR2C,
+                 timeout=900 if q else 3600, mem_gb=6,
+                 desc='one thread_migrate() (other thread / self, same / other vCPU) + the target\'s resume_threads(): the thread is in exactly one place, owner and nthreads follow, refused migrations move nothing',
+                 bounds='2 vCPUs; caller + 2 threads on V, 1 running + <= 1 standby thread on U'))
     return J
